@@ -1,37 +1,62 @@
-import CodeLimit.Lemmas.BalancedExit
+import CodeLimit.Lemmas.BalancedExitTokens
 import CodeLimit.Gen.Languages
 /-!
 # C14 (last clause) - parenthesis-balancing patterns only end before the end of input when
 nesting has returned to zero
 
 Property theorems only, for the *generated* header patterns `CL.Gen.*` (nothing is copied by
-hand: the decidable checker `balancedExitOk` of `Lemmas/BalancedExit.lean` is evaluated by the
-kernel in `exit_ok`).
-
-Vocabulary (all in `Lemmas/BalancedExit.lean`):
-
-* `balPair D = some (l, r)`: `Balanced l r` (`b` below) is the parenthesis-balancing predicate
-  of the compiled pattern `D`;
-* `nestDelta l r t` = `+1` if `l` accepts `t`, `-1` if `r` but not `l` accepts `t`, else `0`;
-  `nest l r w` = sum of `nestDelta` over `w` = (#tokens with `l`) - (#tokens with `¬ l ∧ r`)
-  (`nest_eq_count`);
-* `bConsumed D b cfg w`: the tokens of `w` consumed by `b`-labelled transitions in the run of
-  `D` over `w` from `cfg` (`takesB`; `consumed_by_b_transition` shows that this is exactly "the
-  step follows the `b`-labelled transition"). The nesting profile of a match `m` is
-  `nest l r (bConsumed D b (start, []) m.toks)`. By `consumed_suffix` these tokens are a
-  non-empty *suffix* of `m.toks` - from the first token consumed by a `b` transition on, every
-  token is consumed by a `b` transition - so "counted over the `b` transitions" and "counted
-  over the suffix starting at the first `b` transition" are the same thing.
+hand: the decidable checkers `balancedExitOk` of `Lemmas/BalancedExit.lean` and `prePureOk` of
+`Lemmas/BalancedExitTokens.lean` are evaluated by the kernel in `exit_ok` and `pre_ok`).
 
 All theorems share the hypotheses: `L` a shipped language, `hp` one of its header patterns,
-`D` its DFA, `b = Balanced l r` its balancing predicate, `ms` the result of `find_all` on an
-arbitrary token list `toks`, `m ∈ ms`.
+`D` its DFA, `Balanced l r` its balancing predicate (`balPair D = some (l, r)`; for every shipped
+pattern `l = Symbol "("`, `r = Symbol ")"`, see `shipped_pair`), `ms` the result of `find_all`
+on an arbitrary token list `toks`, `m ∈ ms`.
+
+## 1. What to read: the observable theorems
+
+They speak about the matched tokens `m.toks` only (`m.toks = toks[m.s : m.e]`, C14), with the
+vocabulary of `Spec/Nest.lean`:
+
+* `nestDelta l r t` = `+1` if `l` accepts the token `t`, `-1` if `r` but not `l` accepts `t`,
+  else `0`; `nest l r w` = sum of `nestDelta` over `w` = (#tokens of `w` accepted by `l`) -
+  (#tokens of `w` accepted by `r` and not by `l`) (`nest_eq_count`). A function of the token
+  list alone.
+
+* `early_end_nest_zero`: a match that ends before the end of the input has `nest l r m.toks = 0`
+  (and no prefix of it has negative nesting) - the property clause;
+* `nest_prefix_nonneg`: for every match, also one that reaches the end of the input,
+  `nest l r m.toks ≥ 0` and no prefix has negative nesting (the match may be left open, it is
+  never "over-closed");
+* `first_opener`: every match contains an opener; before the first one there is neither an
+  opener nor a closer (the name / keyword part of the header);
+* `opener_at_zero`: whenever the nesting of a prefix is zero the next token is an opener,
+  unless no opener or closer has occurred yet. With `first_opener`: from the first opener on the
+  match is a sequence of parenthesis groups, and only the last one may be left open - then, by
+  `early_end_nest_zero`, the match extends to the end of the input;
+* `depth_tracks_nest`: the depth counter of `Balanced` after the accepting run over `m.toks`
+  equals `nest l r m.toks` (this links the observable quantity to the mechanism).
+
+## 2. Internals (proof steps, kept for reference)
+
+`bConsumed D b cfg w` (`Lemmas/BalancedExit.lean`) are the tokens of `w` consumed by
+`b`-labelled transitions in the run of `D` over `w` from `cfg` (`takesB`). The theorems
+`*_consumed` state the profile facts for `bConsumed D b (start, []) m.toks`; they mention the
+automaton and are NOT needed to read section 1. `consumed_from_first_opener` identifies that
+list: it is the suffix of `m.toks` that starts at the first opener.
 -/
 namespace CL.C14b
 
-/-- the checker holds for every header pattern of every supported language (kernel
-evaluation) -/
+/-! ## the checkers hold for the shipped patterns (kernel evaluation) -/
+
+/-- the checker of `Lemmas/BalancedExit.lean` holds for every header pattern of every supported
+language -/
 theorem exit_ok : ∀ L ∈ Gen.all.map (·.2), L.pats.all patExitOk = true := by decide +kernel
+
+/-- the additional check of `Lemmas/BalancedExitTokens.lean` (no label of the name / keyword
+part of a header pattern accepts a token that the opener or the closer accepts) holds for every
+header pattern of every supported language -/
+theorem pre_ok : ∀ L ∈ Gen.all.map (·.2), L.pats.all patPreOk = true := by decide +kernel
 
 theorem exitOK_of {L : Language} (hL : L ∈ Gen.all.map (·.2)) {hp : HeaderPat}
     (hhp : hp ∈ L.pats) {D : Dfa Pred} (hD : compileTok hp.expr = .ok D) {l r : Pred}
@@ -41,6 +66,11 @@ theorem exitOK_of {L : Language} (hL : L ∈ Gen.all.map (·.2)) {hp : HeaderPat
   cases hb'
   exact ok
 
+theorem prePure_of {L : Language} (hL : L ∈ Gen.all.map (·.2)) {hp : HeaderPat}
+    (hhp : hp ∈ L.pats) {D : Dfa Pred} (hD : compileTok hp.expr = .ok D) {l r : Pred}
+    (hb : balPair D = some (l, r)) : PrePure D l r :=
+  patPreOk_spec (List.all_eq_true.1 (pre_ok L hL) hp hhp) hD hb
+
 /-- every shipped header pattern has a parenthesis-balancing predicate -/
 theorem has_balanced (L : Language) (hL : L ∈ Gen.all.map (·.2)) (hp : HeaderPat)
     (hhp : hp ∈ L.pats) (D : Dfa Pred) (hD : compileTok hp.expr = .ok D) :
@@ -48,10 +78,102 @@ theorem has_balanced (L : Language) (hL : L ∈ Gen.all.map (·.2)) (hp : Header
   obtain ⟨l, r, hb, _⟩ := patExitOk_spec (List.all_eq_true.1 (exit_ok L hL) hp hhp) hD
   exact ⟨l, r, hb⟩
 
-/-! ## (a) the tokens consumed by the balancing predicate -/
+/-- does the compiled pattern balance `Symbol "("` against `Symbol ")"`? -/
+def pairIsParens (hp : HeaderPat) : Bool :=
+  match compileTok hp.expr with
+  | .ok D => balPair D == some (.symbol [40], .symbol [41])
+  | .error _ => false
 
-/-- `takesB` (used by `bConsumed`) holds for a step of a reachable configuration exactly when
-the step follows the transition labelled `b` -/
+/-- for every shipped header pattern the opener is `Symbol "("` and the closer `Symbol ")"`:
+`nest l r w` = (#punctuation tokens `(` of `w`) - (#punctuation tokens `)` of `w`) -/
+theorem shipped_pair (L : Language) (hL : L ∈ Gen.all.map (·.2)) (hp : HeaderPat)
+    (hhp : hp ∈ L.pats) (D : Dfa Pred) (hD : compileTok hp.expr = .ok D) (l r : Pred)
+    (hb : balPair D = some (l, r)) : l = .symbol [40] ∧ r = .symbol [41] := by
+  have h : ∀ L ∈ Gen.all.map (·.2), L.pats.all pairIsParens = true := by decide +kernel
+  have h1 := List.all_eq_true.1 (h L hL) hp hhp
+  unfold pairIsParens at h1
+  rw [hD] at h1
+  simp only [hb] at h1
+  have h2 : some (l, r) = some (Pred.symbol [40], Pred.symbol [41]) := by simpa using h1
+  cases h2
+  exact ⟨rfl, rfl⟩
+
+/-! ## 1. the observable theorems: nesting profile of the matched tokens -/
+
+/-- THE PROPERTY CLAUSE. A match that ends before the end of the input ends with the nesting
+back at zero: among its tokens there are as many openers as closers, and no prefix of it has
+more closers than openers -/
+theorem early_end_nest_zero (L : Language) (hL : L ∈ Gen.all.map (·.2)) (hp : HeaderPat)
+    (hhp : hp ∈ L.pats) (D : Dfa Pred) (hD : compileTok hp.expr = .ok D) (l r : Pred)
+    (hb : balPair D = some (l, r)) (toks : List Tok) (ms : List (Match Tok))
+    (hms : findAll (dfaMachine D tokAcceptor) toks = .ok ms) (m : Match Tok) (hm : m ∈ ms)
+    (hlt : m.e < toks.length) :
+    nest l r m.toks = 0 ∧ ∀ p, p <+: m.toks → 0 ≤ nest l r p := by
+  obtain ⟨q, _, _, _, _, _, _, _, _, _, h7, h8⟩ :=
+    match_exit_tokens (exitOK_of hL hhp hD hb) (prePure_of hL hhp hD hb) hms hm
+  have := h8 hlt
+  exact ⟨by rw [← h7.depth]; exact this, h7.nonneg⟩
+
+/-- every match - also one that reaches the end of the input, where the last group may be left
+open - has non-negative nesting, and so has every prefix of it: a match is never over-closed -/
+theorem nest_prefix_nonneg (L : Language) (hL : L ∈ Gen.all.map (·.2)) (hp : HeaderPat)
+    (hhp : hp ∈ L.pats) (D : Dfa Pred) (hD : compileTok hp.expr = .ok D) (l r : Pred)
+    (hb : balPair D = some (l, r)) (toks : List Tok) (ms : List (Match Tok))
+    (hms : findAll (dfaMachine D tokAcceptor) toks = .ok ms) (m : Match Tok) (hm : m ∈ ms) :
+    0 ≤ nest l r m.toks ∧ ∀ p, p <+: m.toks → 0 ≤ nest l r p := by
+  obtain ⟨q, _, _, _, _, _, _, _, _, _, h7, _⟩ :=
+    match_exit_tokens (exitOK_of hL hhp hD hb) (prePure_of hL hhp hD hb) hms hm
+  exact ⟨h7.nonneg _ (List.prefix_refl _), h7.nonneg⟩
+
+/-- every match contains an opener, and before its first opener there is neither an opener nor
+a closer -/
+theorem first_opener (L : Language) (hL : L ∈ Gen.all.map (·.2)) (hp : HeaderPat)
+    (hhp : hp ∈ L.pats) (D : Dfa Pred) (hD : compileTok hp.expr = .ok D) (l r : Pred)
+    (hb : balPair D = some (l, r)) (toks : List Tok) (ms : List (Match Tok))
+    (hms : findAll (dfaMachine D tokAcceptor) toks = .ok ms) (m : Match Tok) (hm : m ∈ ms) :
+    ∃ pre y suf, m.toks = pre ++ y :: suf ∧
+      (∀ x ∈ pre, l.eval x = false ∧ r.eval x = false) ∧ l.eval y = true := by
+  obtain ⟨q, pre, y, suf, _, _, h3, h4, h5, _⟩ :=
+    match_exit_tokens (exitOK_of hL hhp hD hb) (prePure_of hL hhp hD hb) hms hm
+  exact ⟨pre, y, suf, h3, h4, h5⟩
+
+/-- groups: whenever the nesting is at zero - after each closed group - the next matched token
+is an opener; the only exception is the part of the match before the first opener, where no
+opener and no closer occurs. Hence from the first opener on (`first_opener`) the matched
+tokens are a sequence of groups, each starting with an opener and staying at `nest > 0` until
+its closer; only the last group may be left open, and then (by `early_end_nest_zero`) the match
+extends to the end of the input -/
+theorem opener_at_zero (L : Language) (hL : L ∈ Gen.all.map (·.2)) (hp : HeaderPat)
+    (hhp : hp ∈ L.pats) (D : Dfa Pred) (hD : compileTok hp.expr = .ok D) (l r : Pred)
+    (hb : balPair D = some (l, r)) (toks : List Tok) (ms : List (Match Tok))
+    (hms : findAll (dfaMachine D tokAcceptor) toks = .ok ms) (m : Match Tok) (hm : m ∈ ms) :
+    ∀ p y rest, m.toks = p ++ y :: rest → nest l r p = 0 →
+      l.eval y = true ∨ ∀ x ∈ p ++ [y], l.eval x = false ∧ r.eval x = false := by
+  obtain ⟨q, _, _, _, _, _, _, _, _, _, h7, _⟩ :=
+    match_exit_tokens (exitOK_of hL hhp hD hb) (prePure_of hL hhp hD hb) hms hm
+  exact h7.opener
+
+/-- link to the mechanism: the accepting run over the matched tokens ends in a configuration
+`(q, ds)` in which the nesting depth stored for `Balanced l r` equals the nesting profile of the
+matched tokens -/
+theorem depth_tracks_nest (L : Language) (hL : L ∈ Gen.all.map (·.2)) (hp : HeaderPat)
+    (hhp : hp ∈ L.pats) (D : Dfa Pred) (hD : compileTok hp.expr = .ok D) (l r : Pred)
+    (hb : balPair D = some (l, r)) (toks : List Tok) (ms : List (Match Tok))
+    (hms : findAll (dfaMachine D tokAcceptor) toks = .ok ms) (m : Match Tok) (hm : m ∈ ms) :
+    ∃ q, runM (dfaMachine D tokAcceptor) (.start, []) m.toks = some q ∧ D.isAcc q.1 = true ∧
+      getDepth q.2 (.balanced l r) = nest l r m.toks := by
+  obtain ⟨q, _, _, _, h1, h2, _, _, _, _, h7, _⟩ :=
+    match_exit_tokens (exitOK_of hL hhp hD hb) (prePure_of hL hhp hD hb) hms hm
+  exact ⟨q, h1, h2, h7.depth⟩
+
+/-! ## 2. internals: the tokens consumed by the balancing predicate
+
+Everything below mentions `bConsumed` / `takesB` / `Reach` (vocabulary of
+`Lemmas/BalancedExit.lean`, defined by re-running the automaton). These are the proof steps
+behind section 1, kept because they describe the mechanism; the property is stated above. -/
+
+/-- (internals) `takesB` (used by `bConsumed`) holds for a step of a reachable configuration
+exactly when the step follows the transition labelled `b` -/
 theorem consumed_by_b_transition (L : Language) (hL : L ∈ Gen.all.map (·.2)) (hp : HeaderPat)
     (hhp : hp ∈ L.pats) (D : Dfa Pred) (hD : compileTok hp.expr = .ok D) (l r : Pred)
     (hb : balPair D = some (l, r)) (cfg cfg' : DState × Depths) (x : Tok) (hr : Reach D cfg)
@@ -59,8 +181,32 @@ theorem consumed_by_b_transition (L : Language) (hL : L ∈ Gen.all.map (·.2)) 
     takesB D (.balanced l r) cfg x = true ↔ (.balanced l r, cfg'.1) ∈ D.row cfg.1 :=
   takesB_iff (exitOK_of hL hhp hD hb) hr hstep
 
-/-- the tokens of a match consumed by `b` transitions are a non-empty suffix of the matched
-tokens; no token before that suffix is consumed by a `b` transition -/
+/-- (internals, bridge to section 1) the tokens of a match consumed by `b` transitions are the
+suffix of the matched tokens that starts at the first opener -/
+theorem consumed_from_first_opener (L : Language) (hL : L ∈ Gen.all.map (·.2)) (hp : HeaderPat)
+    (hhp : hp ∈ L.pats) (D : Dfa Pred) (hD : compileTok hp.expr = .ok D) (l r : Pred)
+    (hb : balPair D = some (l, r)) (toks : List Tok) (ms : List (Match Tok))
+    (hms : findAll (dfaMachine D tokAcceptor) toks = .ok ms) (m : Match Tok) (hm : m ∈ ms) :
+    ∃ pre y suf, m.toks = pre ++ y :: suf ∧
+      (∀ x ∈ pre, l.eval x = false ∧ r.eval x = false) ∧ l.eval y = true ∧
+      bConsumed D (.balanced l r) (.start, []) m.toks = y :: suf := by
+  obtain ⟨q, pre, y, suf, _, _, h3, h4, h5, h6, _⟩ :=
+    match_exit_tokens (exitOK_of hL hhp hD hb) (prePure_of hL hhp hD hb) hms hm
+  exact ⟨pre, y, suf, h3, h4, h5, h6⟩
+
+/-- (internals) the nesting profile of the matched tokens is the nesting profile of the tokens
+consumed by `b` transitions -/
+theorem nest_eq_nest_consumed (L : Language) (hL : L ∈ Gen.all.map (·.2)) (hp : HeaderPat)
+    (hhp : hp ∈ L.pats) (D : Dfa Pred) (hD : compileTok hp.expr = .ok D) (l r : Pred)
+    (hb : balPair D = some (l, r)) (toks : List Tok) (ms : List (Match Tok))
+    (hms : findAll (dfaMachine D tokAcceptor) toks = .ok ms) (m : Match Tok) (hm : m ∈ ms) :
+    nest l r m.toks = nest l r (bConsumed D (.balanced l r) (.start, []) m.toks) := by
+  obtain ⟨q, pre, y, suf, _, _, h3, h4, _, h6, _⟩ :=
+    match_exit_tokens (exitOK_of hL hhp hD hb) (prePure_of hL hhp hD hb) hms hm
+  rw [h6, h3, nest_append, nest_neutral h4]; omega
+
+/-- (internals) the tokens of a match consumed by `b` transitions are a non-empty suffix of the
+matched tokens; no token before that suffix is consumed by a `b` transition -/
 theorem consumed_suffix (L : Language) (hL : L ∈ Gen.all.map (·.2)) (hp : HeaderPat)
     (hhp : hp ∈ L.pats) (D : Dfa Pred) (hD : compileTok hp.expr = .ok D) (l r : Pred)
     (hb : balPair D = some (l, r)) (toks : List Tok) (ms : List (Match Tok))
@@ -71,11 +217,8 @@ theorem consumed_suffix (L : Language) (hL : L ∈ Gen.all.map (·.2)) (hp : Hea
   obtain ⟨q, pre, _, _, h3, h4, h5, _⟩ := match_exit (exitOK_of hL hhp hD hb) hms hm
   exact ⟨h5, pre, h3, h4⟩
 
-/-! ## (c) the depth tracks the profile -/
-
-/-- the accepting run over the matched tokens ends in a configuration `(q, ds)` in which the
-nesting depth stored for `b` equals the nesting profile of the match -/
-theorem depth_tracks_nest (L : Language) (hL : L ∈ Gen.all.map (·.2)) (hp : HeaderPat)
+/-- (internals; `depth_tracks_nest` for the consumed tokens) -/
+theorem depth_tracks_nest_consumed (L : Language) (hL : L ∈ Gen.all.map (·.2)) (hp : HeaderPat)
     (hhp : hp ∈ L.pats) (D : Dfa Pred) (hD : compileTok hp.expr = .ok D) (l r : Pred)
     (hb : balPair D = some (l, r)) (toks : List Tok) (ms : List (Match Tok))
     (hms : findAll (dfaMachine D tokAcceptor) toks = .ok ms) (m : Match Tok) (hm : m ∈ ms) :
@@ -86,10 +229,8 @@ theorem depth_tracks_nest (L : Language) (hL : L ∈ Gen.all.map (·.2)) (hp : H
   refine ⟨q, h1, h2, ?_⟩
   rw [h6.depth]; omega
 
-/-! ## (b) the nesting profile -/
-
-/-- a match that ends before the end of the input ends with the nesting back at zero -/
-theorem early_end_nest_zero (L : Language) (hL : L ∈ Gen.all.map (·.2)) (hp : HeaderPat)
+/-- (internals; `early_end_nest_zero` for the consumed tokens) -/
+theorem early_end_nest_zero_consumed (L : Language) (hL : L ∈ Gen.all.map (·.2)) (hp : HeaderPat)
     (hhp : hp ∈ L.pats) (D : Dfa Pred) (hD : compileTok hp.expr = .ok D) (l r : Pred)
     (hb : balPair D = some (l, r)) (toks : List Tok) (ms : List (Match Tok))
     (hms : findAll (dfaMachine D tokAcceptor) toks = .ok ms) (m : Match Tok) (hm : m ∈ ms)
@@ -99,8 +240,8 @@ theorem early_end_nest_zero (L : Language) (hL : L ∈ Gen.all.map (·.2)) (hp :
   have := h7 hlt
   rw [h6.depth] at this; omega
 
-/-- the nesting never becomes negative: every prefix of the consumed tokens has `nest ≥ 0` -/
-theorem nest_prefix_nonneg (L : Language) (hL : L ∈ Gen.all.map (·.2)) (hp : HeaderPat)
+/-- (internals; `nest_prefix_nonneg` for the consumed tokens) -/
+theorem nest_prefix_nonneg_consumed (L : Language) (hL : L ∈ Gen.all.map (·.2)) (hp : HeaderPat)
     (hhp : hp ∈ L.pats) (D : Dfa Pred) (hD : compileTok hp.expr = .ok D) (l r : Pred)
     (hb : balPair D = some (l, r)) (toks : List Tok) (ms : List (Match Tok))
     (hms : findAll (dfaMachine D tokAcceptor) toks = .ok ms) (m : Match Tok) (hm : m ∈ ms) :
@@ -110,11 +251,8 @@ theorem nest_prefix_nonneg (L : Language) (hL : L ∈ Gen.all.map (·.2)) (hp : 
   have := h6.nonneg p hp'
   omega
 
-/-- groups: whenever the nesting is at zero (at the start, and after each closed group) the next
-consumed token is an opener. Hence the consumed tokens are a sequence of groups, each starting
-with an opener and staying at `nest > 0` until its closer; only the last group may be left
-open, and then (by `early_end_nest_zero`) the match extends to the end of the input -/
-theorem opener_at_zero (L : Language) (hL : L ∈ Gen.all.map (·.2)) (hp : HeaderPat)
+/-- (internals; `opener_at_zero` for the consumed tokens, where there is no exception) -/
+theorem opener_at_zero_consumed (L : Language) (hL : L ∈ Gen.all.map (·.2)) (hp : HeaderPat)
     (hhp : hp ∈ L.pats) (D : Dfa Pred) (hD : compileTok hp.expr = .ok D) (l r : Pred)
     (hb : balPair D = some (l, r)) (toks : List Tok) (ms : List (Match Tok))
     (hms : findAll (dfaMachine D tokAcceptor) toks = .ok ms) (m : Match Tok) (hm : m ∈ ms) :
@@ -124,15 +262,19 @@ theorem opener_at_zero (L : Language) (hL : L ∈ Gen.all.map (·.2)) (hp : Head
   intro p y rest hw hz
   exact h6.opener p y rest hw (by omega)
 
-/-- while an attempt is alive the stored nesting depth is never negative (a closing token at
-depth 0 is rejected by `b`, and no other transition of such a row accepts it) -/
+/-- (internals) while an attempt is alive the stored nesting depth is never negative (a closing
+token at depth 0 is rejected by `b`, and no other transition of such a row accepts it) -/
 theorem depth_nonneg (L : Language) (hL : L ∈ Gen.all.map (·.2)) (hp : HeaderPat)
     (hhp : hp ∈ L.pats) (D : Dfa Pred) (hD : compileTok hp.expr = .ok D) (l r : Pred)
     (hb : balPair D = some (l, r)) (cfg : DState × Depths) (hr : Reach D cfg) :
     0 ≤ getDepth cfg.2 (.balanced l r) :=
   reach_depth_nonneg (exitOK_of hL hhp hD hb) hr
 
-/-! ## non-vacuity -/
+/-! ## non-vacuity
+
+Each example exhibits the observable quantity `nest l r m.toks` and, for comparison, the
+internal one (`nest` of the `b`-consumed tokens); `tokWitness … s e n k` is evaluated by the
+kernel. -/
 
 /-- the tokens of `f ( ( ) ) x` -/
 def closedToks : List Tok :=
@@ -142,32 +284,53 @@ def closedToks : List Tok :=
 /-- the tokens of `f ( (` -/
 def openToks : List Tok := [⟨2, 0, [102], 1, 0⟩, ⟨3, 2, [40], 1, 1⟩, ⟨3, 2, [40], 1, 2⟩]
 
-/-- C pattern on `f ( ( ) ) x`: the match (0, 5) ends before the end of the input, with
-nesting profile 0 -/
+/-- the tokens of `const f = ( ( ) ) x` (keyword, name, operator, four punctuation tokens,
+name) -/
+def arrowToks : List Tok :=
+  [⟨1, 3, [99, 111, 110, 115, 116], 1, 0⟩, ⟨2, 0, [102], 1, 6⟩, ⟨4, 1, [61], 1, 8⟩,
+   ⟨3, 2, [40], 1, 10⟩, ⟨3, 2, [40], 1, 11⟩, ⟨3, 2, [41], 1, 12⟩, ⟨3, 2, [41], 1, 13⟩,
+   ⟨2, 0, [120], 1, 15⟩]
+
+/-- C pattern on `f ( ( ) ) x`: the match (0, 5) ends before the end of the input, and the
+nesting profile of its tokens `f ( ( ) )` is 0 -/
 example : ∃ hp ∈ Gen.c.pats, ∃ D l r ms, compileTok hp.expr = .ok D ∧ balPair D = some (l, r) ∧
     findAll (dfaMachine D tokAcceptor) closedToks = .ok ms ∧
-    ∃ m ∈ ms, m.s = 0 ∧ m.e = 5 ∧ m.e < closedToks.length ∧
+    ∃ m ∈ ms, m.s = 0 ∧ m.e = 5 ∧ m.e < closedToks.length ∧ nest l r m.toks = 0 ∧
       nest l r (bConsumed D (.balanced l r) (.start, []) m.toks) = 0 := by
-  have h : Gen.c.pats.any (fun hp => exitWitness hp.expr closedToks 0 5 0) = true := by
+  have h : Gen.c.pats.any (fun hp => tokWitness hp.expr closedToks 0 5 0 0) = true := by
     decide +kernel
   obtain ⟨hp, hhp, hw⟩ := List.any_eq_true.1 h
-  obtain ⟨D, l, r, ms, h1, h2, h3, m, hm, h4, h5, h6⟩ := exitWitness_spec hw
-  exact ⟨hp, hhp, D, l, r, ms, h1, h2, h3, m, hm, h4, h5, by rw [h5]; decide, h6⟩
+  obtain ⟨D, l, r, ms, h1, h2, h3, m, hm, h4, h5, h6, h7⟩ := tokWitness_spec hw
+  exact ⟨hp, hhp, D, l, r, ms, h1, h2, h3, m, hm, h4, h5, by rw [h5]; decide, h6, h7⟩
 
 /-- C pattern on `f ( (` (the input ends inside the group): the match (0, 3) reaches the end of
-the input, with nesting profile 2 - the hypothesis `m.e < toks.length` of
-`early_end_nest_zero` cannot be dropped -/
+the input, and the nesting profile of its tokens `f ( (` is 2 - the hypothesis
+`m.e < toks.length` of `early_end_nest_zero` cannot be dropped -/
 example : ∃ hp ∈ Gen.c.pats, ∃ D l r ms, compileTok hp.expr = .ok D ∧ balPair D = some (l, r) ∧
     findAll (dfaMachine D tokAcceptor) openToks = .ok ms ∧
-    ∃ m ∈ ms, m.s = 0 ∧ m.e = 3 ∧ m.e = openToks.length ∧
+    ∃ m ∈ ms, m.s = 0 ∧ m.e = 3 ∧ m.e = openToks.length ∧ nest l r m.toks = 2 ∧
       nest l r (bConsumed D (.balanced l r) (.start, []) m.toks) = 2 := by
-  have h : Gen.c.pats.any (fun hp => exitWitness hp.expr openToks 0 3 2) = true := by
+  have h : Gen.c.pats.any (fun hp => tokWitness hp.expr openToks 0 3 2 2) = true := by
     decide +kernel
   obtain ⟨hp, hhp, hw⟩ := List.any_eq_true.1 h
-  obtain ⟨D, l, r, ms, h1, h2, h3, m, hm, h4, h5, h6⟩ := exitWitness_spec hw
-  exact ⟨hp, hhp, D, l, r, ms, h1, h2, h3, m, hm, h4, h5, by rw [h5]; decide, h6⟩
+  obtain ⟨D, l, r, ms, h1, h2, h3, m, hm, h4, h5, h6, h7⟩ := tokWitness_spec hw
+  exact ⟨hp, hhp, D, l, r, ms, h1, h2, h3, m, hm, h4, h5, by rw [h5]; decide, h6, h7⟩
 
-/-! ## negative control -/
+/-- JavaScript arrow-function pattern (the second header pattern of `Gen.javascript`:
+`const? name = async? Balanced+`) on `const f = ( ( ) ) x`: the match (0, 7) ends before the end
+of the input, and the nesting profile of its tokens `const f = ( ( ) )` is 0; the three tokens
+before the first opener are neither openers nor closers -/
+example : ∃ hp, Gen.javascript.pats[1]? = some hp ∧ ∃ D l r ms, compileTok hp.expr = .ok D ∧
+    balPair D = some (l, r) ∧ findAll (dfaMachine D tokAcceptor) arrowToks = .ok ms ∧
+    ∃ m ∈ ms, m.s = 0 ∧ m.e = 7 ∧ m.e < arrowToks.length ∧ nest l r m.toks = 0 ∧
+      nest l r (bConsumed D (.balanced l r) (.start, []) m.toks) = 0 := by
+  have h : (Gen.javascript.pats[1]?).any (fun hp => tokWitness hp.expr arrowToks 0 7 0 0)
+      = true := by decide +kernel
+  obtain ⟨hp, hhp, hw⟩ := (Option.any_eq_true _ _).1 h
+  obtain ⟨D, l, r, ms, h1, h2, h3, m, hm, h4, h5, h6, h7⟩ := tokWitness_spec hw
+  exact ⟨hp, hhp, D, l, r, ms, h1, h2, h3, m, hm, h4, h5, by rw [h5]; decide, h6, h7⟩
+
+/-! ## negative controls -/
 
 /-- `[Name(), Balanced("(", ")"), Name()]`: after the balancing predicate the pattern goes on
 with a different predicate -/
@@ -179,15 +342,39 @@ def badToks : List Tok :=
   [⟨2, 0, [102], 1, 0⟩, ⟨3, 2, [40], 1, 1⟩, ⟨2, 0, [120], 1, 2⟩, ⟨2, 0, [121], 1, 4⟩]
 
 /-- the checker rejects such a pattern, and rightly so: on `f ( x y` it reports the match
-(0, 3), which ends before the end of the input inside an open group (nesting profile 1) -/
+(0, 3), which ends before the end of the input inside an open group: the nesting profile of its
+tokens `f ( x` is 1 -/
 example : patExitOk ⟨badRx, none⟩ = false ∧
     ∃ D l r ms, compileTok badRx = .ok D ∧ balPair D = some (l, r) ∧
       findAll (dfaMachine D tokAcceptor) badToks = .ok ms ∧
-      ∃ m ∈ ms, m.s = 0 ∧ m.e = 3 ∧ m.e < badToks.length ∧
+      ∃ m ∈ ms, m.s = 0 ∧ m.e = 3 ∧ m.e < badToks.length ∧ nest l r m.toks = 1 ∧
         nest l r (bConsumed D (.balanced l r) (.start, []) m.toks) = 1 := by
   refine ⟨by decide +kernel, ?_⟩
-  have hw : exitWitness badRx badToks 0 3 1 = true := by decide +kernel
-  obtain ⟨D, l, r, ms, h1, h2, h3, m, hm, h4, h5, h6⟩ := exitWitness_spec hw
-  exact ⟨D, l, r, ms, h1, h2, h3, m, hm, h4, h5, by rw [h5]; decide, h6⟩
+  have hw : tokWitness badRx badToks 0 3 1 1 = true := by decide +kernel
+  obtain ⟨D, l, r, ms, h1, h2, h3, m, hm, h4, h5, h6, h7⟩ := tokWitness_spec hw
+  exact ⟨D, l, r, ms, h1, h2, h3, m, hm, h4, h5, by rw [h5]; decide, h6, h7⟩
+
+/-- `[TokenValue("("), OneOrMore(Balanced(Symbol("("), Symbol(")")))]`: the part of the pattern
+before the balancing predicate accepts an opener -/
+def preRx : Rx Pred :=
+  .cat (.atom (.value [40])) (.plus (.atom (.balanced (.symbol [40]) (.symbol [41]))))
+
+/-- the tokens of `( ( ) x` -/
+def preToks : List Tok :=
+  [⟨3, 2, [40], 1, 0⟩, ⟨3, 2, [40], 1, 1⟩, ⟨3, 2, [41], 1, 2⟩, ⟨2, 0, [120], 1, 4⟩]
+
+/-- the additional check `pre_ok` is needed for the observable statement: `preRx` passes the
+first checker (so the `*_consumed` theorems hold for it) but not the second one, and on
+`( ( ) x` it reports the match (0, 3), which ends before the end of the input although the
+nesting profile of its tokens `( ( )` is 1; the `b`-consumed tokens `( )` have profile 0 -/
+example : patExitOk ⟨preRx, none⟩ = true ∧ patPreOk ⟨preRx, none⟩ = false ∧
+    ∃ D l r ms, compileTok preRx = .ok D ∧ balPair D = some (l, r) ∧
+      findAll (dfaMachine D tokAcceptor) preToks = .ok ms ∧
+      ∃ m ∈ ms, m.s = 0 ∧ m.e = 3 ∧ m.e < preToks.length ∧ nest l r m.toks = 1 ∧
+        nest l r (bConsumed D (.balanced l r) (.start, []) m.toks) = 0 := by
+  refine ⟨by decide +kernel, by decide +kernel, ?_⟩
+  have hw : tokWitness preRx preToks 0 3 1 0 = true := by decide +kernel
+  obtain ⟨D, l, r, ms, h1, h2, h3, m, hm, h4, h5, h6, h7⟩ := tokWitness_spec hw
+  exact ⟨D, l, r, ms, h1, h2, h3, m, hm, h4, h5, by rw [h5]; decide, h6, h7⟩
 
 end CL.C14b
